@@ -10,7 +10,7 @@ import types
 PRELUDE_NAME = "tlg_prelude"
 
 PRELUDE_SRC = r'''
-import collections, collections.abc, dataclasses, datetime, decimal, enum, fractions, pathlib, re, typing, uuid
+import collections, collections.abc, dataclasses, datetime, decimal, enum, fractions, pathlib, re, typing, typing_extensions, uuid
 from typing import *  # noqa
 
 class EInt(enum.Enum):
@@ -99,6 +99,16 @@ class TDreq(typing.TypedDict, total=False):
 
 class TDitems(typing.TypedDict):
     items: int
+    b: str
+
+class TDund(typing.TypedDict):
+    # a key that starts with an underscore is a key like any other (its value needs converting: Decimal <-> text)
+    _a: decimal.Decimal
+    b: str
+
+class TDte(typing_extensions.TypedDict):
+    # typing_extensions ships its own TypedDict implementation (typing.is_typeddict does not know it)
+    a: int
     b: str
 
 class PC:
